@@ -124,6 +124,21 @@ def unknowns_small_documents(seed):
             if got != want:
                 fails.append({'input': src, 'listed': got,
                               'expected': want})
+            elif want and ln <= 2:
+                # the list is a list of names, not text: phrase replacement
+                # (--repl, always passed by the shell) leaves it alone
+                rules = ['%s & zzz qq' % nm.lstrip('\\') for nm in want]
+                n += 1
+                try:
+                    plain2, _ = t2t.tex2txt(src, t2t.Options(unkn=True,
+                                                             repl=rules))
+                    if plain2 != plain:
+                        fails.append({'input': src, 'repl': rules,
+                                      'listed': plain2.split('\n'),
+                                      'expected': got})
+                except Exception as e:      # noqa
+                    fails.append({'input': src, 'repl': rules,
+                                  'why': 'exception %r' % (e,)})
             if len(fails) >= 3:
                 break
         if len(fails) >= 3:
